@@ -11,7 +11,9 @@ CLAIMED = {
     "C01": dict(
         text="Proof (full): for every history of the whole structure/explicit API the association is symmetric and duplicate-free "
              "(link_inv_reachable), raising link calls change nothing, the vertex<->link mutual recursion terminates; the fuelled "
-             "transliteration equals plain reference edits. Tied by lock-step histories compared field by field after every call.",
+             "transliteration equals plain reference edits. Tied by lock-step histories compared field by field after every call. "
+             "Objects are named by identity; links that are == without being identical are exercised by fixed cases (open finding "
+             "D24, reported as KNOWN-FINDING).",
         note=N, design="6/C01", technique=T),
     "C02": dict(
         text="Proof (full): symmetric, duplicate-free membership for every history incl. nested/self-member universes "
@@ -59,11 +61,16 @@ CLAIMED = {
         text="Proof (full for neighbors(); traversals/searches inherit it through neighbors() and are additionally decided by the "
              "cached-vs-uncached oracle): every query of every history interleaving all mutators, flag toggles and queries answers the "
              "uncached recomputation (cached_answers_equal_recomputed), all outcomes are independent of the flag "
-             "(answers_independent_of_flag), coherence invariant on every reachable state. Fresh-interpreter clause: C10 legs.",
+             "(answers_independent_of_flag), coherence invariant on every reachable state; traversals and searches run through the "
+             "memo equal the pure ones for every fuel (TravCached). Fresh-interpreter clause: legs freshproc and C10 (loaded copies "
+             "are edited before anything is asked of them).",
         note=N + " Filters are pure and compare by identity as memo keys.", design="6/C05", technique=T),
     "C10": dict(
-        text="Proof (partial): the queue scheduler produces exactly the recursive pickler's stream and memo, and conversely, for an "
-             "arbitrary per-object save behaviour (any size, depth, sharing, cycles); executable versions sound and complete. "
+        text="Proof (partial): the queue scheduler - with its two modes: children deferred, classes and functions saved atomically "
+             "(recursively) when their turn comes - produces exactly the recursive pickler's stream and memo, and conversely, for an "
+             "arbitrary per-object save behaviour and an arbitrary set of atomic objects (any size, depth, sharing, cycles); executable "
+             "versions sound and complete. Standing hypothesis: one save() invocation is a function of the memo at entry and the object "
+             "(false of dill for by-value classes: defect D22, repaired; residual open finding D23 reported as KNOWN-FINDING). "
              "Decoding to an isomorphic, usable, detached copy is pickle's/dill's behaviour: decided by round-trip legs (pickle and "
              "dill, in-process and fresh interpreter, caching on/off, protocols 0-5), opcode equality with recursive dill, and a "
              "depth leg under recursion limit 400.",
